@@ -117,9 +117,9 @@ def audit(prop: str) -> dict:
         f.unlink(missing_ok=True)
     out = _filter(p.stdout + p.stderr)
     axioms: dict[str, list[str]] = {}
-    for m in re.finditer(r"^'(.+?)' depends on axioms: \[([^\]]*)\]", out, re.S | re.M):
+    for m in re.finditer(r"^'([^\n]+?)' depends on axioms: \[([^\]]*)\]", out, re.S | re.M):
         axioms[m.group(1)] = [a.strip() for a in m.group(2).replace("\n", " ").split(",") if a.strip()]
-    for m in re.finditer(r"^'(.+?)' does not depend on any axioms", out, re.M):
+    for m in re.finditer(r"^'([^\n]+?)' does not depend on any axioms", out, re.M):
         axioms[m.group(1)] = []
     discharged, bad = [], []
     for n in names:
